@@ -32,6 +32,9 @@ type srtEvent struct {
 	Res  string     `json:"res"`
 	Msg  string     `json:"msg"`
 	Raw  string     `json:"raw"`
+	// what the hook at the top of the reader's loop reported, one entry per scanned line:
+	// line number, cues appended so far, lines held by the cue being filled
+	Hooks [][3]int `json:"hooks"`
 }
 
 func normCues(g []srtx.Cue) []srtx.Cue {
@@ -60,13 +63,20 @@ func normDoc(d srtx.Doc) srtx.Doc {
 
 func srtRead(n int, c srtCase) srtEvent {
 	p := srtx.PoolFor(n)
-	ev := srtEvent{N: n, Dir: "read", G: normCues(c.G), D: normDoc(c.D), Post: []srtx.Cue{}}
+	ev := srtEvent{N: n, Dir: "read", G: normCues(c.G), D: normDoc(c.D), Post: []srtx.Cue{}, Hooks: [][3]int{}}
 	raw := srtx.Concretise(c.D, p)
 	dumpDoc("srt", n, raw)
 	ev.Raw = string(raw)
 	var s *astisub.Subtitles
 	var err error
-	ev.Res, ev.Msg = run.Guard(10*time.Second, func() { s, err = astisub.ReadFromSRT(bytes.NewReader(raw)) })
+	rd := bytes.NewReader(raw)
+	astisub.VerifHook = func(site string, key interface{}, kv ...interface{}) {
+		if site == "srt.line" && key == interface{}(rd) && len(kv) == 3 {
+			ev.Hooks = append(ev.Hooks, [3]int{kv[0].(int), kv[1].(int), kv[2].(int)})
+		}
+	}
+	ev.Res, ev.Msg = run.Guard(10*time.Second, func() { s, err = astisub.ReadFromSRT(rd) })
+	astisub.VerifHook = nil
 	if ev.Res == "ok" && err != nil {
 		ev.Res, ev.Msg = "err", err.Error()
 	}
@@ -78,7 +88,7 @@ func srtRead(n int, c srtCase) srtEvent {
 
 func srtWrite(n int, g []srtx.Cue) srtEvent {
 	p := srtx.PoolFor(n)
-	ev := srtEvent{N: n, Dir: "write", G: normCues(g), D: normDoc(srtx.Doc{}), Post: []srtx.Cue{}}
+	ev := srtEvent{N: n, Dir: "write", G: normCues(g), D: normDoc(srtx.Doc{}), Post: []srtx.Cue{}, Hooks: [][3]int{}}
 	s := srtx.Build(g, p)
 	var buf bytes.Buffer
 	var err error
